@@ -47,7 +47,7 @@ class RDFLibTermEncoder(TermEncoder):
         """
         if isinstance(term, rdflib.URIRef):
             iri = self.get_iri_field(statement, slot)
-            return self.encode_iri(term, iri)
+            return self.encode_iri(str(term), iri)
 
         if isinstance(term, rdflib.Literal):
             literal = self.get_literal_field(statement, slot)
@@ -82,7 +82,7 @@ class RDFLibTermEncoder(TermEncoder):
             return self.encode_default_graph(statement.g_default_graph)
 
         if isinstance(term, rdflib.URIRef):
-            return self.encode_iri(term, statement.g_iri)
+            return self.encode_iri(str(term), statement.g_iri)
 
         if isinstance(term, rdflib.BNode):
             statement.g_bnode = str(term)
@@ -92,7 +92,7 @@ class RDFLibTermEncoder(TermEncoder):
 
 def namespace_declarations(store: Graph, stream: Stream) -> None:
     for prefix, namespace in store.namespaces():
-        stream.namespace_declaration(name=prefix, iri=namespace)
+        stream.namespace_declaration(name=prefix, iri=str(namespace))
 
 
 @singledispatch
